@@ -622,6 +622,11 @@ pub fn hash_alt<X: Payload, H: Hasher>(x: &X, state: &mut H) {
     state.write_i8(x.a().rem_euclid(2));
 }
 
+/// custom Debug method for any field type (C19's directed templates)
+pub fn zz_dbg<X>(_x: &X, f: &mut fmt::Formatter<'_>) -> fmt::Result {
+    f.write_str("zz")
+}
+
 pub fn fmt_alt<X: Payload>(x: &X, f: &mut fmt::Formatter<'_>) -> fmt::Result {
     ev(format!("m_fmt_alt:{}", pid(x)));
     if f.alternate() {
